@@ -19,7 +19,7 @@ def plan(tier):
     return dict(n_cases=n, shards=16, min_nontrivial=n // 3,
                 min_tags={'path:analytic': n // 4, 'path:state': n // 6, 'clause:uniform_state': n // 30,
                           'clause:per_point_table': n // 40, 'clause:varying_table': n // 40, 'model:kpanel': n // 30,
-                          'obj:assembly': n // 12, 'state:tiny': n // 24},
+                          'obj:assembly': n // 12, 'state:tiny': n // 24, 'order:fresh': n // 20},
                 watchdog_s=1800 if tier == 'quick' else 10000,
                 rule='panels as in C02; analytic path: random real (Nxx,Nyy,Nxy) of all signs incl. pure shear/tension, sub-intervals, '
                      'placement; state path (plate, cpanel): random Ritz states, NLgeom on/off, Gauss orders 2..%d, uniform 6x6 vs '
@@ -225,8 +225,12 @@ def run_case(rng, tier, idx):
     c.desc.update(nx=nx, ny=ny, NLgeom=NLgeom, mode=mode)
     c.tag('mode:' + mode, 'NLgeom' if NLgeom else 'lin')
     size = d['size']
+    # 40% of the states without a per-point table: kG0(c) is the first thing ever asked of the object (state from elsewhere)
+    fresh = mode in ('random_state', 'uniform_state') and rng.random() < 0.4
+    c.tag('order:fresh' if fresh else 'order:k0_first')
     try:
-        p.calc_k0(size=size, row0=row0, col0=row0, silent=True)
+        if not fresh:
+            p.calc_k0(size=size, row0=row0, col0=row0, silent=True)
     except Exception as e:
         return c.reject('%s in calc_k0: %s' % (type(e).__name__, str(e)[:100]))
     t = sum(lam['plyts'])
@@ -241,7 +245,8 @@ def run_case(rng, tier, idx):
         dd['row0'] = row0 = 0; dd['size'] = size = own
         d = dd; c.desc['panel'] = d
         p = gen.build_panel(d)
-        p.calc_k0(silent=True)
+        if not fresh:
+            p.calc_k0(silent=True)
         size_p = own
         e0 = rng.normal(size=3) * 1e-3
         # least-squares projection of the linear field on the series (exactly representable)
